@@ -3,6 +3,7 @@ package main
 import (
 	"encoding/json"
 	"io"
+	"net"
 	"net/http"
 	"net/http/httptest"
 	"strings"
@@ -51,6 +52,9 @@ func (b *slowBody) Read(p []byte) (int, error) {
 
 type apiCase struct {
 	Reqs []apiReq `json:"reqs"`
+	// Probes: addresses dialled after every request; the ones that accept a connection are reported (what is really listening,
+	// to be compared with what the API lists as enabled)
+	Probes []string `json:"probes"`
 }
 
 type apiResp struct {
@@ -58,6 +62,7 @@ type apiResp struct {
 	Body    string `json:"body"`
 	CT      string `json:"ct"`
 	Proxies string `json:"proxies"` // raw GET /proxies after the request
+	Listening []string `json:"listening"` // the probe addresses that accept a connection after the request
 	Panic   string `json:"panic,omitempty"`
 }
 
@@ -105,6 +110,13 @@ func runAPI(raw []byte) interface{} {
 			resp := doReq(h, r)
 			after := doReq(h, apiReq{Method: "GET", Path: "/proxies"})
 			resp.Proxies = after.Body
+			resp.Listening = []string{}
+			for _, a := range c.Probes {
+				if conn, err := net.DialTimeout("tcp", a, 200*time.Millisecond); err == nil {
+					conn.Close()
+					resp.Listening = append(resp.Listening, a)
+				}
+			}
 			out[i] = append(out[i], resp)
 		}
 		server.Collection.Clear()
